@@ -6,6 +6,21 @@ props = [json.loads(l)["id"] for l in open(os.path.join(ROOT, "properties.jsonl"
 
 # id -> (category, technique, level text, level note, design ref)
 CHECKS = {
+ "C05": ("exploration",
+         "runtime monitor: nonce leak detector at a recording backend over the full matrix protocol x injector outcome x injector set x client header form, race detector on",
+         "Every request carries unique nonces under every injected header name in one of ten forms (case variants, repeats, empty, padded, 8 KiB, trailers on HTTP/1.1); connections on which JA3 or JA4 cannot be computed are produced on purpose (D9/D13-class hellos), custom injectors returning value / empty / error are configured through fingerproxy.GetHeaderInjectors; the backend must see either exactly the proxy's value (recomputed by the JA3/JA4 references) or no header. The 180-cell matrix is enumerated completely in both tiers. Held on the requests sent.",
+         "trusted: recording backend (net/http), raw HTTP/1.1 text and independent x/net v0.19.0 framer on the client side, internal/hello references for the expected JA3/JA4 values; the X-HTTP2-Fingerprint value itself is judged by C03",
+         "DESIGN.md §4 C05"),
+ "C09": ("exploration",
+         "runtime monitor: forwarding-header oracle at a recording backend over real TCP from every local source address, both protocols, client-supplied forwarding headers with nonces, race detector on",
+         "Requests are sent over real TCP (the path where HTTP/1.1 connections reach net/http wrapped in hack.TLSClientHelloConn) from 127.0.0.1-8, ::1 and the interface addresses; the backend record must show the TCP peer as last X-Forwarded-For element after the client's list, the client's Host as X-Forwarded-Host, https as X-Forwarded-Proto and none of the client's Forwarded/X-Forwarded-Host/-Proto nonces. The matrix is enumerated in quick, PRNG combinations added in thorough.",
+         "trusted: recording backend, rig session (raw text / independent framer); peer address diversity limited to this machine's addresses",
+         "DESIGN.md §4 C09"),
+ "C15": ("exploration",
+         "runtime monitor: exactly-one-route oracle (client-visible response x backend log, with a late sweep) over User-Agent variants, methods, protocols and the probe flag, race detector on",
+         "Every request is tagged; the backend answers with a distinctive status/body so that a local 200 'OK' cannot be mistaken. For each request exactly one of (answered locally, reached the backend once) must hold and must be the one the prefix rule demands, for probe support on, off and default (flag wiring through VerifNewApp). Locally answered tags are re-checked at the end of the run.",
+         "trusted: recording backend, rig session; two disagreeing User-Agent lines: only 'exactly one route' is judged",
+         "DESIGN.md §4 C15"),
  "C01": ("exploration",
          "runtime monitor: JA3 reference computed from the bytes (independent parser) on crypto/tls-accepted forged hellos (shape grid exhaustive) + real utls/crypto-tls handshakes through the full stack judged at a recording backend, race detector on",
          "The real fingerprint function is run on every forged ClientHello that crypto/tls (configured like the proxy) accepts and compared with an independent reference computed from the same bytes; the complete GREASE/plain shape grid (length 0..3 per list) is enumerated, the rest is PRNG driven. Real handshakes with browser presets, random specs and crypto/tls clients, chopped into 1..7-byte TCP writes, on h2 and http/1.1 with several requests per connection, are judged at the backend against the reference of the bytes the client wrote. Held on the hellos produced.",
